@@ -74,7 +74,17 @@ impl Mode {
                     reg => Some(self.get_register_expression(reg, instruction)?),
                 };
 
-                let scale = Expr::constant(Constant::new(mem.scale as i64 as u64, self.bits()));
+                // The effective address is computed in the address size of
+                // the instruction (that of its base/index registers, e.g. 16
+                // bits under an address-size prefix in 32-bit code), wraps at
+                // that size, and is then zero-extended to the mode's width.
+                let address_bits = base
+                    .as_ref()
+                    .or(index.as_ref())
+                    .map(|register| register.bits())
+                    .unwrap_or_else(|| self.bits());
+
+                let scale = Expr::constant(Constant::new(mem.scale as i64 as u64, address_bits));
 
                 let si = match index {
                     Some(index) => Some(Expr::mul(index, scale)?),
@@ -92,15 +102,21 @@ impl Mode {
                 let op = if let Some(op) = op {
                     match mem.disp.cmp(&0) {
                         Ordering::Greater => {
-                            Expr::add(op, expr_const(mem.disp as u64, self.bits()))?
+                            Expr::add(op, expr_const(mem.disp as u64, address_bits))?
                         }
                         Ordering::Less => {
-                            Expr::sub(op, expr_const(mem.disp.unsigned_abs(), self.bits()))?
+                            Expr::sub(op, expr_const(mem.disp.unsigned_abs(), address_bits))?
                         }
                         Ordering::Equal => op,
                     }
                 } else {
-                    expr_const(mem.disp as u64, self.bits())
+                    expr_const(mem.disp as u64, address_bits)
+                };
+
+                let op = if op.bits() < self.bits() {
+                    Expr::zext(self.bits(), op)?
+                } else {
+                    op
                 };
 
                 match mem.segment {
